@@ -1,5 +1,5 @@
 #!/bin/bash
-# tools/sweep.sh <tier> <seed...>   run every check at the given seeds (logs sweep_<tier>_s<seed>_<ID>.log in cwd).
+# tools/sweep.sh <tier> <seed...>   run every check (or those in $SWEEP_IDS, e.g. "02 03 20 01", in that order) at the given seeds (logs sweep_<tier>_s<seed>_<ID>.log in cwd).
 # Under `vp run --with-repo` the snapshot's go.mod is pointed at the repo snapshot ($VP_RUN_REPO) so that
 # patches applied to /repo meanwhile (seed testing) cannot disturb the sweep. Exploration aid only:
 # registered checks and committed evidence always come from /verif against /repo.
@@ -12,7 +12,7 @@ if [ -n "${VP_RUN_REPO:-}" ] && [ "$PWD" != /verif ]; then
 fi
 tier=$1; shift
 for seed in "$@"; do
-for i in 01 02 03 04 05 06 07 08 09 10 11 12 13 14 15 16 17 18 19 20; do
+for i in ${SWEEP_IDS:-01 02 03 04 05 06 07 08 09 10 11 12 13 14 15 16 17 18 19 20}; do
   s=$(date +%s)
   VERIF_SEED=$seed ./check C$i $tier > sweep_${tier}_s${seed}_C$i.log 2>&1
   echo "seed=$seed C$i exit=$? t=$(( $(date +%s)-s ))s viol=$(grep -ac '^VIOLATION' sweep_${tier}_s${seed}_C$i.log) known=$(grep -ac '^KNOWN-FINDING' sweep_${tier}_s${seed}_C$i.log) $(grep -a 'inconclusive=' sweep_${tier}_s${seed}_C$i.log | tail -1 | grep -o 'inconclusive=[0-9]*')"
